@@ -52,7 +52,13 @@ func TestVerif(t *testing.T) {
 			return
 		}
 		pre(1)
+		ScriptTrace = *fDump >= 0
 		v := sc.Run()
+		if ScriptTrace && LastScriptSim != nil {
+			for _, l := range LastScriptSim.trace {
+				fmt.Println(l)
+			}
+		}
 		if v != nil && v.Class == sc.Class {
 			fmt.Printf("SCRIPT-REPRODUCED %s class=%s %s\n", sc.Name, v.Class, v.Detail)
 		} else if v != nil {
